@@ -134,6 +134,18 @@ func C13(p *engine.Prog, r *engine.Report) {
 	if vb != nil {
 		c03R3a(p, r, "C13-R4")
 	}
+	// ---------------- R7: reset completeness of the speculative state's object caches
+	resetCompletenessRule(p, r, "C13-R7", "core/state", "StateDB", "Clear", map[string]string{
+		"db":                 "storage handle, re-pointed only by CommitSnapshot/SwitchToPreliminary — not cached data",
+		"tree":               "storage handle, re-pointed only by CommitSnapshot/SwitchToPreliminary — not cached data",
+		"identityUpdateHook": "configuration (ProvideIdentityUpdateHook), not per-block data",
+	}, "what a rejected or abandoned block wrote into this cache is seen by the next block evaluated on the same state object (Reset/ResetTo/ForCheck all rely on Clear)")
+	resetCompletenessRule(p, r, "C13-R7", "core/state", "IdentityStateDB", "Clear", map[string]string{
+		"db":   "storage handle, re-pointed only by SwitchToPreliminary — not cached data",
+		"tree": "storage handle, re-pointed only by SwitchToPreliminary — not cached data",
+	}, "what a rejected or abandoned block wrote into this cache is seen by the next block evaluated on the same state object")
+	r.Floor("C13-R7", 18, "20 StateDB cache fields + 2 IdentityStateDB on the pinned tree")
+
 }
 
 func callsToName(f *ssa.Function, name string) []ssa.CallInstruction {
